@@ -782,6 +782,37 @@ class Counter:
         self.n = 0
 
 
+def _has_control(block):
+    """does a block (stmts, tail) contain a statement other than `let` / nested value-free `if`, or a `?`"""
+    stmts, tail = block
+    for st in stmts:
+        if st[0] == 'let':
+            if st[3] is not None and _has_try(st[3]):
+                return True
+        elif st[0] == 'ifs':
+            if _has_try(st[1]) or _has_control(st[2]) or (st[3] is not None and _has_control(st[3])):
+                return True
+        else:
+            return True
+    return tail is not None and _has_try(tail)
+
+
+def _has_try(e):
+    if isinstance(e, tuple):
+        if e and e[0] == 'try':
+            return True
+        if e and e[0] == 'if':
+            return _has_try(e[1]) or _has_control(e[2]) or (e[3] is not None and _has_control(e[3]))
+        return any(_has_try(x) for x in e[1:])
+    if isinstance(e, list):
+        return any(_has_try(x) for x in e)
+    return False
+
+
+def _returns(stmts):
+    return any(st[0] == 'return' for st in stmts)
+
+
 class Em:
     """Compiles statements / expressions to Gallina.  comp() returns a pure term; operations that can panic (and `?`)
     are queued in self.pending in evaluation order and flushed by the statement level as `x <- op ;;` lines."""
@@ -1007,6 +1038,11 @@ class Em:
         """`if` as a value of type ty"""
         if e[3] is None:
             raise TranslateError('`if` without `else` used as a value')
+        for br in (e[2], e[3]):
+            if _has_control(br):
+                # the branches of a value `if` are compiled on their own: anything that leaves the branch or changes
+                # the surrounding state would be lost
+                raise TranslateError('`return` / `?` / assignment / effect inside an `if` used as a value')
         c = self.comp_bool(e[1])
         pre = self.flush()
         kind = 'bool' if ty == 'bool' else 'int'
@@ -1166,6 +1202,14 @@ class Em:
                 for br in (a, b):
                     if br is not None and br[1] is not None and not (br[1][0] == 'if'):
                         raise TranslateError('`if` statement whose block has a value')
+                # a `let` of a branch that falls through would stay visible in the rest of the function (the rest is
+                # compiled once per branch): refuse it when it could capture a name the rest uses
+                later = free_vars(rest) + (free_vars(tail) if tail is not None else [])
+                for br in (a, b):
+                    if br is not None and not _returns(br[0]):
+                        for st in br[0]:
+                            if st[0] == 'let' and (st[1] in self.env or st[1] in later):
+                                raise TranslateError('block-local `let %s` shadows a name used after the block' % st[1])
                 fa = self.fork()
                 la = fa.block(list(a[0]) + ([('ifs',) + a[1][1:]] if a[1] else []) + rest, tail, kind, rty)
                 fb = self.fork()
